@@ -9,7 +9,8 @@
 From Coq Require Import ZArith List Bool Arith Lia PrimFloat.
 From QV Require Import Base.Mat Base.Zi C12.ModelFloat C12.ModelTableau C12.ModelExec C12.ModelMeasure
   C12.Pauli C12.ProofsRules C12.ProofsCircuit C12.ProofsFloat C12.ProofsMeasure C12.ProofsMeasure2
-  C12.ProofsMeasure3 C12.ProofsBorn C12.ModelAG04 C12.ProofsAG04 C12.ProofsAccept C12.ProofsExec.
+  C12.ProofsMeasure3 C12.ProofsBorn C12.ModelAG04 C12.ProofsAG04 C12.ProofsAccept C12.ProofsNonzero C12.ModelShot C12.ProofsShot
+  C12.ProofsFloat2 C12.ProofsExec.
 Import ListNotations.
 Local Open Scope Z_scope.
 
@@ -432,3 +433,64 @@ Print Assumptions ag04_ok.
 Example ag04_ok_nonvacuous :
   Inv 3 witness_T /\ trow witness_T (2 * 3) = zero_row 3 /\ length (ag04 3 witness_T) = 19%nat.
 Proof. split; [apply ProofsMeasure3.Inv_b_sound; vm_compute; reflexivity|]. split; vm_compute; reflexivity. Qed.
+
+(* ================= (6) no premise left: the state vector of a library circuit is never zero ================= *)
+Theorem nonzero_run : forall n os psi, Forall (fun o => sop_unit o = true) os -> Forall (sop_valid n) os ->
+  nonzero n psi -> nonzero n (run_spec os psi).
+Proof. exact ProofsNonzero.nonzero_run. Qed.
+Print Assumptions nonzero_run.
+
+Theorem born_support_execute_unconditional : forall half n c l T qs o s T',
+  sops_of c = Some l -> Forall (sop_valid n) l -> execute_circuit_at half n c = Final T ->
+  Forall (fun q => (q < n)%nat) qs ->
+  M_real n T qs o = Some (s, T') ->
+  exists b, length b = n /\ run_spec l psi0 b <> zi0 /\ agrees b qs s.
+Proof. exact ProofsNonzero.born_support_execute_unconditional. Qed.
+Print Assumptions born_support_execute_unconditional.
+
+(* ================= (7) repeated execution: gates, collapsing measurements, final sampling ================= *)
+Theorem measure_length : forall rs det qs n T o s T', measure rs det n T qs o = Some (s, T') -> length s = length qs.
+Proof. exact ProofsShot.measure_length. Qed.
+Print Assumptions measure_length.
+
+Theorem measure_Good : forall qs n T o s T' psi,
+  Good n T psi -> Forall (fun q => (q < n)%nat) qs -> M_spec n T qs o = Some (s, T') ->
+  Good n T' (projs qs s psi) /\ length s = length qs.
+Proof. exact ProofsShot.measure_Good. Qed.
+Print Assumptions measure_Good.
+
+Theorem projs_agrees : forall qs s psi b, length s = length qs -> projs qs s psi b <> zi0 -> psi b <> zi0 /\ agrees b qs s.
+Proof. exact ProofsShot.projs_agrees. Qed.
+Print Assumptions projs_agrees.
+
+Theorem shot_Good : forall prog n T psi outs T',
+  Forall (sstep_ok n) prog -> Good n T psi -> run_ssteps n prog T = Some (outs, T') ->
+  Good n T' (spec_state prog outs psi).
+Proof. exact ProofsShot.shot_Good. Qed.
+Print Assumptions shot_Good.
+
+Theorem run_shot_support : forall half n prog sp fq fd outs s,
+  ssteps_of prog = Some sp ->
+  (forall o, In (SGate o) sp -> sop_valid n o) ->
+  (forall qs d, In (PCollapse qs d) prog -> Forall (fun q => (q < n)%nat) qs) ->
+  Forall (fun q => (q < n)%nat) fq ->
+  run_shot half n prog fq fd = Some (outs, s) ->
+  exists b, length b = n /\ spec_state sp outs psi0 b <> zi0 /\ agrees b fq s.
+Proof. exact ProofsShot.run_shot_support. Qed.
+Print Assumptions run_shot_support.
+
+Example run_shot_nonvacuous :
+  run_shot false 1 [PGate (gH 0); PCollapse [0%nat] [true]] [0%nat] [] = Some ([[true]], [true]).
+Proof. vm_compute. reflexivity. Qed.
+
+(* ================= (8) which multiples of pi/2 the flag accepts ================= *)
+Theorem flag_characterised_K : forall k, - 4096 <= k <= 4096 ->
+  flag (ang_a k) = exactly_representable k /\ flag (ang_b k) = exactly_representable k.
+Proof. exact ProofsFloat2.flag_characterised_K. Qed.
+Print Assumptions flag_characterised_K.
+
+Theorem flag_family_all_magnitudes : forall (neg : bool) (o : positive) (j : Z),
+  In o [1; 3; 5; 7; 9]%positive -> 0 <= j <= 1000 ->
+  flag (ang_of (f_o2j neg o j)) = true /\ rot_branch (ang_of (f_o2j neg o j)) = kmod4 neg o j.
+Proof. exact ProofsFloat2.flag_family_all_magnitudes. Qed.
+Print Assumptions flag_family_all_magnitudes.
